@@ -192,6 +192,11 @@ type reflCall struct {
 // reflectProgram performs up to `calls` mutator calls on a seeded walk from root. after is invoked after every call
 // that returned normally (the caller compares the payload's bytes).
 func reflectProgram(root any, seed int64, w string, calls int, after func(c reflCall)) []reflCall {
+	return reflectProgramExcl(root, seed, w, calls, after, nil)
+}
+
+// reflectProgramExcl: as reflectProgram, never calling methods whose name contains one of the excluded substrings.
+func reflectProgramExcl(root any, seed int64, w string, calls int, after func(c reflCall), exclude []string) []reflCall {
 	rng := rand.New(rand.NewSource(seed))
 	var done []reflCall
 	for c := 0; c < calls; c++ {
@@ -210,7 +215,15 @@ func reflectProgram(root any, seed int64, w string, calls int, after func(c refl
 		var cands []int
 		for i := 0; i < t.NumMethod(); i++ {
 			if isMutatorName(t.Method(i).Name) {
-				cands = append(cands, i)
+				skip := false
+				for _, x := range exclude {
+					if strings.Contains(t.Method(i).Name, x) {
+						skip = true
+					}
+				}
+				if !skip {
+					cands = append(cands, i)
+				}
 			}
 		}
 		if len(cands) == 0 {
